@@ -186,6 +186,17 @@ def _suspicious(c: dict, o: dict) -> bool:
     return o["nerr"] != 1 or o["nother"] != 0 or o["hung"] or o["etype"] != c["cls"] or not o["msg_ok"]
 
 
+def _warm() -> None:
+    import logging
+    import warnings
+
+    warnings.filterwarnings("ignore")
+    logging.disable(logging.CRITICAL)
+    from drivers import _wire3_world  # noqa: F401
+    import vgi_rpc.http  # noqa: F401
+    from vgi_rpc.http import _testing  # noqa: F401
+
+
 def work(jobs: list[dict]) -> list[dict]:
     import logging
     import warnings
@@ -211,72 +222,76 @@ def work(jobs: list[dict]) -> list[dict]:
 def run(ctx: Ctx) -> None:
     quick = ctx.quick
     consts = {"Builtins": set(BUILTINS_Q if quick else BUILTINS_T), "UserClasses": set(USER_Q if quick else USER_T),
-              "TypedClasses": set(TYPED), "MsgClasses": set(MSGS),
+              "TypedClasses": set(TYPED[:4] if quick else TYPED), "MsgClasses": set(MSGS[1:] if quick else MSGS),
               "Transports": {"pipe", "http"} if quick else {"pipe", "http", "httpbuf"},
               "StreamSites": set(SITES_Q if quick else SITES_T)}
-    cases = table.enumerate_cases(ctx, "wire", "ErrFaithful", constants=consts, invariants=INVS)
-    ctx.exhaustive = True
-    ctx.rule = ("case = (exception class, message class, stream shape, raise site, transport) enumerated by TLC from "
-                "ErrFaithful!Cases; one real call per (case, concrete message); non-trivial = distinct (case, concrete "
-                "message) pairs executed on the real code")
-    ctx.assume("HTTP legs use the in-process falcon test client (make_sync_client) behind a recording wrapper",
-               "the exception text is str(exc) as recorded by the implementation at the raise site",
-               "stream calls are consumed by iterating until the error / the end (tick on pipes, __iter__ / exchange over HTTP)",
-               "quick runs a class subset (3 built-in, 1 user, all 5 typed) and 6 of the 9 stream sites on pipe+http; thorough all 26 classes, all sites and httpbuf")
+    nproc = int(os.environ.get("VERIF_PROCS", "8" if quick else "10"))
+    pool = mp.get_context("spawn").Pool(nproc, initializer=_warm)       # imports overlap with the TLC enumeration
+    try:
+        cases = table.enumerate_cases(ctx, "wire", "ErrFaithful", constants=consts, invariants=INVS)
+        ctx.exhaustive = True
+        ctx.rule = ("case = (exception class, message class, stream shape, raise site, transport) enumerated by TLC from "
+                    "ErrFaithful!Cases; one real call per (case, concrete message); non-trivial = distinct (case, concrete "
+                    "message) pairs executed on the real code")
+        ctx.assume("HTTP legs use the in-process falcon test client (make_sync_client) behind a recording wrapper",
+                   "the exception text is str(exc) as recorded by the implementation at the raise site",
+                   "stream calls are consumed by iterating until the error / the end (tick on pipes, __iter__ / exchange over HTTP)",
+                   "quick runs a class subset (3 built-in, 1 user, the 4 framework typed errors), 5 of the 6 message classes and 6 of the 9 stream sites on pipe+http; thorough all 26 classes, all message classes, all sites and httpbuf")
 
-    cases.sort(key=lambda j: (j["case"]["tr"], j["case"]["cls"], j["case"]["shape"], j["case"]["site"], j["case"]["msg"]))
-    jobs = []
-    for i, cj in enumerate(cases):
-        c = cj["case"]
-        if c["cls"] == "none":
-            jobs.append({"case": c, "exp": cj["exp"], "msg": "unused", "argc": 1})
-            continue
-        for msg, argc in concretize(c["msg"], i, ctx.rng, not quick):
-            jobs.append({"case": c, "exp": cj["exp"], "msg": msg, "argc": argc})
-    nproc = max(1, min(int(os.environ.get("VERIF_PROCS", "6" if quick else "10")), len(jobs) // 50 or 1))
-    # interleave so that every worker sees every transport (each keeps one world per transport)
-    shards = [jobs[k::nproc] for k in range(nproc)]
-    import time as _t
-    t0 = _t.time()
-    mpctx = mp.get_context("spawn")
-    with mpctx.Pool(nproc) as pool:
+        cases.sort(key=lambda j: (j["case"]["tr"], j["case"]["cls"], j["case"]["shape"], j["case"]["site"], j["case"]["msg"]))
+        jobs = []
+        for i, cj in enumerate(cases):
+            c = cj["case"]
+            if c["cls"] == "none":
+                jobs.append({"case": c, "exp": cj["exp"], "msg": "unused", "argc": 1})
+                continue
+            for msg, argc in concretize(c["msg"], i, ctx.rng, not quick):
+                jobs.append({"case": c, "exp": cj["exp"], "msg": msg, "argc": argc})
+        # interleave so that every worker sees every transport (each keeps one world per transport)
+        shards = [jobs[k::nproc] for k in range(nproc)]
+        import time as _t
+        t0 = _t.time()
         try:
             parts = pool.map_async(work, shards).get(timeout=1500)
         except mp.TimeoutError as e:
+            pool.terminate()
             raise MachineryError("C07 workers did not finish") from e
-    ctx.extra["real_code_phase_s"] = round(_t.time() - t0, 1)
-    results: list = [None] * len(jobs)
-    for k, part in enumerate(parts):
-        for j, r in zip(range(k, len(jobs), nproc), part):
-            results[j] = r
+        pool.close()
+        ctx.extra["real_code_phase_s"] = round(_t.time() - t0, 1)
+        results: list = [None] * len(jobs)
+        for k, part in enumerate(parts):
+            for j, r in zip(range(k, len(jobs), nproc), part):
+                results[j] = r
 
-    obs = []
-    for job, r in zip(jobs, results):
-        c = job["case"]
-        ctx.case([c, job["msg"][:64], len(job["msg"]), job["argc"]])
-        obs.append({"case": c, "obs": r["obs"]})
-    step = max(1, len(jobs) // 5)
-    for job, r in list(zip(jobs, results))[::step][:5]:
-        ctx.sample({"case": job["case"], "message": job["msg"][:80], "message_len": len(job["msg"]),
-                    "observed": r["obs"], "client_events": r["info"].get("events")})
-    bad = table.judge(ctx, "wire", "ErrFaithful", obs, constants=consts)
-    n_kind = 0
-    for idx, clauses in bad:
-        job, r = jobs[idx], results[idx]
-        c = job["case"]
-        if "RaisedWhatWasAsked" in clauses:
-            raise MachineryError(f"harness: the implementation did not raise what the case asked for: {c} {r}")
-        sig_base = {"cls": c["cls"], "group": job["exp"]["group"], "msg": c["msg"], "shape": c["shape"],
-                    "site": c["site"], "tr": c["tr"]}
-        for cl in clauses:
-            if cl == "SuccessAfterFailure":      # not a clause of the statement (connection/worker reuse is C04/C14)
-                ctx.drift.append({"case": c, "follow_up_call_failed": r["info"].get("follow_events")})
-                continue
-            if cl == "KindExposed":
-                n_kind += 1
-            ctx.violation(cl, dict(sig_base, exposed=r["obs"]["kind"]) if cl == "KindExposed" else sig_base,
-                          {"case": c, "message": job["msg"][:200], "message_len": len(job["msg"]), "argc": job["argc"],
-                           "observed": r["obs"], "info": r["info"]})
-    ctx.extra["typed_cases_without_exposed_kind"] = n_kind
-    ctx.extra["jobs"] = len(jobs)
-    ctx.extra["workers"] = nproc
+        obs = []
+        for job, r in zip(jobs, results):
+            c = job["case"]
+            ctx.case([c, job["msg"][:64], len(job["msg"]), job["argc"]])
+            obs.append({"case": c, "obs": r["obs"]})
+        step = max(1, len(jobs) // 5)
+        for job, r in list(zip(jobs, results))[::step][:5]:
+            ctx.sample({"case": job["case"], "message": job["msg"][:80], "message_len": len(job["msg"]),
+                        "observed": r["obs"], "client_events": r["info"].get("events")})
+        bad = table.judge(ctx, "wire", "ErrFaithful", obs, constants=consts)
+        n_kind = 0
+        for idx, clauses in bad:
+            job, r = jobs[idx], results[idx]
+            c = job["case"]
+            if "RaisedWhatWasAsked" in clauses:
+                raise MachineryError(f"harness: the implementation did not raise what the case asked for: {c} {r}")
+            sig_base = {"cls": c["cls"], "group": job["exp"]["group"], "msg": c["msg"], "shape": c["shape"],
+                        "site": c["site"], "tr": c["tr"]}
+            for cl in clauses:
+                if cl == "SuccessAfterFailure":      # not a clause of the statement (connection/worker reuse is C04/C14)
+                    ctx.drift.append({"case": c, "follow_up_call_failed": r["info"].get("follow_events")})
+                    continue
+                if cl == "KindExposed":
+                    n_kind += 1
+                ctx.violation(cl, dict(sig_base, exposed=r["obs"]["kind"]) if cl == "KindExposed" else sig_base,
+                              {"case": c, "message": job["msg"][:200], "message_len": len(job["msg"]), "argc": job["argc"],
+                               "observed": r["obs"], "info": r["info"]})
+        ctx.extra["typed_cases_without_exposed_kind"] = n_kind
+        ctx.extra["jobs"] = len(jobs)
+        ctx.extra["workers"] = nproc
+    finally:
+        pool.terminate()
